@@ -371,6 +371,15 @@ func c19Faithful(c *core.Ctx) {
 			bad := ""
 			scen.Protect(func() {
 				p := cd.NewProperty(nil, cd.PropertyTypeComponent, "wire", tag)
+				// describing the arguments (what logging and error texts do) observes, it does not change
+				_ = p.Args().String()
+				_ = p.Args().String()
+				after := map[string][]string{}
+				p.Args().ForEach(func(t cd.ArgType, vs []string) { after[string(t)] = vs })
+				if show(after) != show(wargs) {
+					bad = fmt.Sprintf("after describing the arguments with String() they are {%s}, want {%s}", show(after), show(wargs))
+					return
+				}
 				model := map[string][]string{}
 				for k, v := range wargs {
 					model[k] = append([]string{}, v...)
